@@ -50,6 +50,8 @@ func VerifH_C02_process_body() {
 	mimeK := verifrt.Choice("mime", 3)
 	prefix := []string{"\x00\x01\x02\x03\x04", "%PDF-1.7\n", "<html><body>"}[mimeK]
 	o := verifmodel.DoOutcome{Status: 200, Chunks: c02Chunks("b"), ReadErr: verifrt.Choice("body-fails", 2) == 1, Prefix: prefix}
+	// an io.Reader may hand out its last bytes together with io.EOF or with the error that ends the stream
+	o.EndWithData = verifrt.Choice("end-arrives-with-the-last-bytes", 2) == 1
 	if len(o.Chunks) > 0 && o.Chunks[0] < 16 {
 		o.Chunks[0] = 16 // the sniffed prefix arrives in the first read
 	}
@@ -71,6 +73,9 @@ func VerifH_C02_process_body() {
 	maxHops := verifrt.Choice("max-hops", 2)
 	err := ProcessBody(u, disable, domains, maxHops, tmp)
 	verifrt.Assert(body.Closed >= 1, "C02 the response body is closed on every path")
+	if o.EndWithData {
+		verifrt.Cover("end-with-data")
+	}
 	if err == nil {
 		verifrt.Cover("body-ok")
 		verifrt.Assert(body.EOF, "C02 a successfully processed body was read to its end")
@@ -306,4 +311,90 @@ func VerifH_C02_archive_assets() {
 	}
 	verifrt.Quiesce()
 	verifrt.Cover("two-assets")
+}
+
+// VerifH_C06_retry_bound: a URL whose every attempt fails in a retryable way (transport error, 503, 429) is
+// attempted exactly --max-retry + 1 times and then marked failed, for small and for large retry budgets (the server
+// would answer 200 to a surplus attempt, so an attempt too many ends the run instead of looping).
+func VerifH_C06_retry_bound() {
+	_ = stats.Init()
+	maxRetry := []int{0, 1, 3, 6, 7}[verifrt.Choice("max-retry", 5)]
+	if !verifrt.Symbolic() && maxRetry > 6 {
+		return // (the real back-off sleeps 2 s more per retry: budgets beyond 6 are left to the symbolic run)
+	}
+	cfg := &config.Config{MaxConcurrentAssets: 1, MaxRetry: maxRetry, WARCWriteAsync: true, HTTPReadDeadline: 10}
+	config.VerifSet(cfg)
+	domainscrawl.Reset()
+	hook := discard.NewBuilder().AddDefaultHooks().Build()
+	globalArchiver = &archiver{Client: &warc.CustomHTTPClient{DiscardHook: hook}}
+	globalBucketManager = nil
+	kind := verifrt.Choice("failure", 3)
+	var script []verifmodel.DoOutcome
+	for i := 0; i <= maxRetry; i++ {
+		switch kind {
+		case 0:
+			script = append(script, verifmodel.DoOutcome{Err: true})
+		case 1:
+			script = append(script, verifmodel.DoOutcome{Status: 503, Chunks: []int{8}, Prefix: "<html>"})
+		default:
+			script = append(script, verifmodel.DoOutcome{Status: 429, Chunks: []int{8}, Prefix: "<html>"})
+		}
+	}
+	script = append(script, verifmodel.DoOutcome{Status: 200, Chunks: []int{8}, Prefix: "<html>"}) // a surplus attempt would succeed
+	verifmodel.DoScript = script
+	verifmodel.DoCalls, verifmodel.DoBodies = 0, nil
+	target := "http://h.example/"
+	var served int32
+	if !verifrt.Symbolic() {
+		d, err := os.MkdirTemp("", "verif-c06-")
+		if err != nil {
+			panic(err)
+		}
+		defer os.RemoveAll(d)
+		cfg.JobPath, cfg.WARCTempDir, cfg.WARCPrefix, cfg.WARCPoolSize, cfg.WARCSize = d, d+"/tmp", "VERIF", 1, 100
+		ts := httptest.NewServer(http.HandlerFunc(func(w http.ResponseWriter, r *http.Request) {
+			i := int(atomic.AddInt32(&served, 1)) - 1
+			if i >= len(script) {
+				w.WriteHeader(500)
+				return
+			}
+			o := script[i]
+			if o.Err {
+				hj, _ := w.(http.Hijacker)
+				conn, _, _ := hj.Hijack()
+				conn.Close()
+				return
+			}
+			w.Header().Set("Content-Type", "text/html")
+			w.WriteHeader(o.Status)
+			w.Write([]byte("xxxxx"))
+		}))
+		defer ts.Close()
+		target = ts.URL + "/"
+		log.Start()
+		logger = log.NewFieldedLogger(&log.Fields{"component": "archiver"})
+		startWARCWriter()
+		defer globalArchiver.Client.Close()
+	}
+	seed := models.NewItem("seed-1", &models.URL{Raw: target}, "")
+	_ = seed.GetURL().Parse()
+	req, _ := http.NewRequest("GET", target, nil)
+	seed.GetURL().SetRequest(req)
+	seed.SetStatus(models.ItemPreProcessed)
+
+	archive("w", seed)
+
+	n := verifmodel.DoCalls
+	if !verifrt.Symbolic() {
+		n = int(atomic.LoadInt32(&served))
+		if seed.GetURL().GetBody() != nil {
+			seed.GetURL().GetBody().Close()
+		}
+	}
+	if maxRetry >= 6 {
+		verifrt.Cover("large-retry-budget")
+	}
+	verifrt.Cover("retries-exhausted")
+	verifrt.Assert(n == maxRetry+1, "C06 a failing URL is attempted exactly max-retry + 1 times")
+	verifrt.Assert(seed.GetStatus() == models.ItemFailed, "C02 a URL whose attempts all failed is failed, not archived")
 }
